@@ -253,6 +253,7 @@ func init() {
 				"world layer writes CurrentFeeds and ValidatorPriceLists with the keeper setters (environment input); hist layer writes validator prices only through real MsgSubmitSignalPrices; CurrentFeeds content (interval computation) is not C06's subject",
 				"powers >= 1 (a bonded validator has tokens); price-list timestamps <= now",
 				"\"bonded at the end of the block\": a validator counts iff its x/staking status is Bonded after the evaluated block's own validator-set update (the x/staking end blocker of that block, i.e. the set reported to consensus for this block), with the tokens it has then; the bonded total is the bonded pool after that update. Scenarios L1-L3 change the set in the evaluated block itself (delegation, undelegation, jailing)",
+				"a validator's price for a feed is the entry it stored under THAT feed's signal id, wherever it sits in the stored list; rerank layer: the changed current feed list is installed with the keeper setter (the ranking itself is not C06's subject), prices only through real MsgSubmitSignalPrices",
 				"a validator's latest price is its latest ACCEPTED MsgSubmitSignalPrices, stamped with the time of the block that carried it, whether or not it repeats the previous status and price (resub layer)",
 			}
 			r.Required = []string{
@@ -265,6 +266,7 @@ func init() {
 				"world:AVAILABLE", "world:NOT_READY", "world:UNKNOWN_SIGNAL_ID", "world:unbonded-validator-ignored", "world:inactive-validator-ignored",
 				"hist:AVAILABLE", "hist:NOT_READY", "hist:UNKNOWN_SIGNAL_ID",
 				"resub:AVAILABLE", "resub:NOT_READY", "resub:UNKNOWN_SIGNAL_ID", "resub:same-value-resubmission-counted-after-first-is-stale",
+				"rerank:AVAILABLE", "rerank:NOT_READY", "rerank:UNKNOWN_SIGNAL_ID",
 				"setchange:AVAILABLE", "setchange:NOT_READY", "setchange:UNKNOWN_SIGNAL_ID",
 			}
 			deadline := r.Deadline(8*time.Minute, 45*time.Minute)
@@ -339,7 +341,7 @@ func replay(raw json.RawMessage, path []string) (engine.StepResult, []string) {
 		if fp != "" {
 			res.Violate(fp, "%s", detail)
 		}
-	case "world", "hist", kindDiscarded, kindResub:
+	case "world", "hist", kindDiscarded, kindResub, kindRerank:
 		var c WorldCase
 		if err := json.Unmarshal(raw, &c); err != nil {
 			panic(err)
